@@ -269,7 +269,8 @@ class Facts:
         vs = inline.load_vocabulary_sigs()
         self.renamed_fns = inline.canonicalise_renamed_functions(self.raw, vs, strip_lt) if vs is not None and self.raw.get("crate") == "regexml" else {}
         self.inlined = inline.inline_new_helpers(self.raw, voc, strip_lt) if voc is not None and self.raw.get("crate") == "regexml" else []
-        self.renamed_closures = inline.canonicalise_closures(self.raw) if self.inlined else {}
+        self.desugared = inline.desugar_iterator_adaptors(self.raw, strip_lt) if voc is not None else []
+        self.renamed_closures = inline.canonicalise_closures(self.raw) if (self.inlined or self.desugared) else {}
         vf = inline.load_vocabulary_fields()
         self.renamed_fields = inline.canonicalise_fields(self.raw, vf, strip_lt) if vf is not None and self.raw.get("crate") == "regexml" else {}
         self.crate = self.raw["crate"]
